@@ -98,7 +98,7 @@ META = {
                 note="A reference gram builder written from the wire format must reproduce rend() byte for byte (asserted every run). Fixed ed25519 seeds; counter-based memo ids."),
     "C23": dict(cat="model_checking", eng="E2 BFS over real LMDB", ref="3 (store group)",
                 tech="explicit-state BFS over push/pull/extend/update/remove/clear/reopen/resync histories of the real Durq and Dusq on a real LMDB environment with a list / ordered-set model in lock step",
-                text="All histories to depth 5 (quick) / 7 (thorough) over values {A,B} in three dataclass flavours; states = (memory content, durable (ordinal, value) list, stale flag); after every operation the return value, list(q), len, count, the durable copy read straight through lmdb, sdb.get, cnt and stale are compared with the model; reopen must restore exactly the model's content. Queues may already hold values (with duplicates) when they first become durable; a Dusq keeps its own copies of the values it was built from. The initial state is judged too. Events also cover a queue that already holds values attached over a non-empty durable copy (the durable copy wins) and value lists refused as a whole (nothing changes anywhere).",
+                text="All histories to depth 5 (quick) / 7 (thorough) over values {A,B} in three dataclass flavours; states = (memory content, durable (ordinal, value) list, stale flag); after every operation the return value, list(q), len, count, the durable copy read straight through lmdb, sdb.get, cnt and stale are compared with the model; reopen must restore exactly the model's content. Queues may already hold values (with duplicates) when they first become durable; a Dusq keeps its own copies of the values it was built from. The initial state is judged too. Events also cover a queue that already holds values attached over a non-empty durable copy (the durable copy wins) value lists refused as a whole (nothing changes anywhere), store and queue handed to the Hold in one mapping, and a temp=True store that is closed plainly and re-opened in place.",
                 note="Crash points are orderly close/reopen between operations; torn LMDB pages are LMDB's guarantee. Sandbox under /dev/shm, removed afterwards."),
     "C24": dict(cat="model_checking", eng="E2 BFS over real LMDB", ref="3 (store group)",
                 tech="explicit-state BFS over put/pin/add/pop/rem histories of the real Suber, IoSuber and IoSetSuber on a real LMDB environment with a dict / dict-of-lists / dict-of-ordered-sets model; every other key re-read after every operation",
